@@ -218,3 +218,242 @@ example : norm .wktCs [65, 66, 0, 0] = some [65, 66, 0] := by decide
 example : norm .geoKeys [1, 0, 1, 0, 0, 0, 9, 9, 1, 2, 3, 4, 5, 6, 7, 8, 99] = some [1, 0, 1, 0, 0, 0, 1, 0, 1, 2, 3, 4, 5, 6, 7, 8] := by decide
 
 end LasModel.Props.C08
+
+/-! ### the classification lookup (dictionary semantics) -/
+
+namespace LasModel.Props.C08
+open LasModel LasModel.Bytes LasModel.Strings LasModel.Vlr
+
+def keysOf (d : List (UInt8 × Bytes)) : List UInt8 := d.map (·.1)
+
+def GoodVal (v : Bytes) : Prop := NulFree v ∧ v.length ≤ 15 ∧ isAscii v = true
+
+def GoodDict (d : List (UInt8 × Bytes)) : Prop := (keysOf d).Nodup ∧ ∀ e ∈ d, GoodVal e.2
+
+theorem any_key_iff (d : List (UInt8 × Bytes)) (k : UInt8) : d.any (·.1 == k) = true ↔ k ∈ keysOf d := by
+  unfold keysOf
+  simp only [List.any_eq_true, beq_iff_eq, List.mem_map]
+
+theorem keys_dictInsert (d : List (UInt8 × Bytes)) (k : UInt8) (v : Bytes) :
+    keysOf (dictInsert d k v) = if k ∈ keysOf d then keysOf d else keysOf d ++ [k] := by
+  unfold dictInsert
+  by_cases h : d.any (·.1 == k) = true
+  · have hk := (any_key_iff d k).mp h
+    simp only [h, if_true, hk]
+    unfold keysOf
+    rw [List.map_map]
+    apply List.map_congr_left
+    intro e _
+    simp only [Function.comp]
+    split
+    · next he => have : e.1 = k := by simpa using he
+                 exact this.symm
+    · rfl
+  · have hk : k ∉ keysOf d := fun hk => h ((any_key_iff d k).mpr hk)
+    simp only [h, hk, if_false]
+    simp [keysOf]
+
+theorem good_dictInsert (d : List (UInt8 × Bytes)) (k : UInt8) (v : Bytes) (hd : GoodDict d) (hv : GoodVal v) :
+    GoodDict (dictInsert d k v) := by
+  refine ⟨?_, ?_⟩
+  · rw [keys_dictInsert]
+    split
+    · exact hd.1
+    · next hk =>
+      rw [List.nodup_append]
+      refine ⟨hd.1, by simp, ?_⟩
+      intro a ha b hb
+      simp only [List.mem_singleton] at hb
+      subst hb
+      intro e; subst e; exact hk ha
+  · intro e he
+    unfold dictInsert at he
+    split at he
+    · obtain ⟨e0, he0, rfl⟩ := List.mem_map.mp he
+      split
+      · exact hv
+      · exact hd.2 e0 he0
+    · rcases List.mem_append.mp he with h | h
+      · exact hd.2 e h
+      · simp only [List.mem_singleton] at h; subst h; exact hv
+
+theorem good_foldl (l : List (UInt8 × Bytes)) (acc : List (UInt8 × Bytes)) (ha : GoodDict acc) (hl : ∀ e ∈ l, GoodVal e.2) :
+    GoodDict (l.foldl (fun d e => dictInsert d e.1 e.2) acc) := by
+  induction l generalizing acc with
+  | nil => exact ha
+  | cons e es ih =>
+    simp only [List.foldl_cons]
+    exact ih _ (good_dictInsert acc e.1 e.2 ha (hl e List.mem_cons_self)) (fun x hx => hl x (List.mem_cons_of_mem _ hx))
+
+/-- inserting the records of a dictionary with distinct keys, in order, rebuilds it -/
+theorem foldl_rebuild (l acc : List (UInt8 × Bytes)) (h : (keysOf (acc ++ l)).Nodup) :
+    l.foldl (fun d e => dictInsert d e.1 e.2) acc = acc ++ l := by
+  induction l generalizing acc with
+  | nil => simp
+  | cons e es ih =>
+    simp only [List.foldl_cons]
+    have hk : e.1 ∉ keysOf acc := by
+      intro hk
+      unfold keysOf at h hk
+      rw [List.map_append, List.map_cons, List.nodup_append] at h
+      exact h.2.2 _ hk _ List.mem_cons_self rfl
+    have e1 : dictInsert acc e.1 e.2 = acc ++ [e] := by
+      unfold dictInsert
+      have : ¬ acc.any (·.1 == e.1) = true := fun ha => hk ((any_key_iff acc e.1).mp ha)
+      simp [this]
+    rw [e1, ih (acc ++ [e]) (by simpa [List.append_assoc] using h)]
+    simp [List.append_assoc]
+
+theorem cutNul_nulFree (s : Bytes) : NulFree (cutNul s) := by
+  intro b hb
+  unfold cutNul at hb
+  induction s with
+  | nil => simp at hb
+  | cons x xs ih =>
+    simp only [List.takeWhile_cons] at hb
+    split at hb
+    · next hx =>
+      rcases List.mem_cons.mp hb with rfl | h
+      · simpa using hx
+      · exact ih h
+    · cases hb
+
+theorem chunks16_flatten (bl : List Bytes) (h : ∀ b ∈ bl, b.length = 16) : chunks16 bl.length bl.flatten = bl := by
+  induction bl with
+  | nil => rfl
+  | cons b bs ih =>
+    have hb := h b List.mem_cons_self
+    simp only [List.length_cons, chunks16, List.flatten_cons]
+    rw [List.take_left' hb, List.drop_left' hb, ih (fun x hx => h x (List.mem_cons_of_mem _ hx))]
+
+theorem flatten_length16 (bl : List Bytes) (h : ∀ b ∈ bl, b.length = 16) : bl.flatten.length = 16 * bl.length := by
+  induction bl with
+  | nil => rfl
+  | cons b bs ih =>
+    simp only [List.flatten_cons, List.length_append, List.length_cons, h b List.mem_cons_self,
+      ih (fun x hx => h x (List.mem_cons_of_mem _ hx))]
+    omega
+
+def block (e : UInt8 × Bytes) : Bytes := e.1 :: writeString e.2 15
+
+theorem block_length (e : UInt8 × Bytes) : (block e).length = 16 := by
+  unfold block writeString
+  simp [nullPad_length e.2 15 false (by decide)]
+
+theorem parse_block (e : UInt8 × Bytes) (hv : GoodVal e.2) :
+    ((block e).headD 0, cutNul ((block e).drop 1)) = e := by
+  obtain ⟨h1, h2, _⟩ := hv
+  have := readString_writeString e.2 15 [] h1 h2
+  unfold readString at this
+  simp only [List.append_nil] at this
+  have hl := this.1
+  have hc : cutNul (writeString e.2 15) = e.2 := by
+    have h3 := congrArg Prod.fst this.2
+    simp only at h3
+    have h4 : List.take 15 (writeString e.2 15) = writeString e.2 15 := by
+      conv => lhs; arg 1; rw [← hl]
+      exact List.take_length
+    rw [h4] at h3
+    exact h3
+  unfold block
+  simp [hc]
+
+/-- serialising a dictionary with distinct class ids and clean names, then parsing it, gives the same
+    serialisation -/
+theorem normClassLookup_of_good (d : List (UInt8 × Bytes)) (hd : GoodDict d) :
+    normClassLookup (d.flatMap block) = some (d.flatMap block) := by
+  have hflat : d.flatMap block = (d.map block).flatten := by simp [List.flatMap]
+  have h16 : ∀ b ∈ d.map block, b.length = 16 := by
+    intro b hb; obtain ⟨e, _, rfl⟩ := List.mem_map.mp hb; exact block_length e
+  have hlen : (d.flatMap block).length = 16 * d.length := by
+    rw [hflat, flatten_length16 _ h16, List.length_map]
+  have hchunks : chunks16 ((d.flatMap block).length / 16) (d.flatMap block) = d.map block := by
+    rw [hlen, Nat.mul_div_cancel_left _ (by decide : 0 < 16), hflat]
+    have := chunks16_flatten (d.map block) h16
+    rwa [List.length_map] at this
+  have hentries : (d.map block).map (fun e => (e.headD 0, cutNul (e.drop 1))) = d := by
+    rw [List.map_map]
+    conv => rhs; rw [← List.map_id d]
+    apply List.map_congr_left
+    intro e he
+    exact parse_block e (hd.2 e he)
+  unfold normClassLookup
+  have hm : ¬ (d.flatMap block).length % 16 ≠ 0 := by rw [hlen]; simp
+  simp only [hm, if_false, hchunks, hentries]
+  have hall : d.all (fun e => isAscii e.2) = true := by
+    rw [List.all_eq_true]; intro e he; exact (hd.2 e he).2.2
+  simp only [hall, if_true]
+  rw [foldl_rebuild d [] (by simpa using hd.1)]
+  rfl
+
+theorem drop1_take16_le (p : Bytes) : ((p.take 16).drop 1).length ≤ 15 := by
+  simp [List.length_take]; omega
+
+theorem cutNul_length_le (s : Bytes) : (cutNul s).length ≤ s.length := by
+  unfold cutNul; exact (List.takeWhile_sublist _).length_le
+
+theorem chunks16_mem_length (n : Nat) (p : Bytes) : ∀ c ∈ chunks16 n p, c.length ≤ 16 := by
+  induction n generalizing p with
+  | zero => intro c hc; cases hc
+  | succ n ih =>
+    intro c hc
+    simp only [chunks16, List.mem_cons] at hc
+    rcases hc with rfl | hc
+    · simp [List.length_take]; omega
+    · exact ih _ c hc
+
+/-- **classification lookup**: re-serialising a parsed lookup gives a payload that parses and
+    re-serialises to itself (the missing case of `C08_norm_idem`) -/
+theorem C08_classLookup_idem (p q : Bytes) (h : normClassLookup p = some q) : normClassLookup q = some q := by
+  unfold normClassLookup at h
+  split at h
+  · cases h
+  · simp only at h
+    split at h
+    · next hall =>
+      injection h with h
+      subst h
+      apply normClassLookup_of_good
+      apply good_foldl
+      · exact ⟨by simp [keysOf], fun e he => by cases he⟩
+      · intro e he
+        obtain ⟨c, hc, rfl⟩ := List.mem_map.mp he
+        refine ⟨cutNul_nulFree _, ?_, ?_⟩
+        · have h1 := cutNul_length_le (c.drop 1)
+          have h2 := chunks16_mem_length _ _ c hc
+          simp only [List.length_drop] at h1
+          simp only; omega
+        · rw [List.all_eq_true] at hall
+          exact hall _ he
+    · cases h
+
+/-- `C08_norm_idem` for every known type -/
+theorem C08_norm_idem_all (k : Known) (p q : Bytes) (h : norm k p = some q) : norm k q = some q := by
+  by_cases hk : k = .classLookup
+  · subst hk; exact C08_classLookup_idem p q h
+  · exact C08_norm_idem k hk p q h
+
+/-- `factory` is stable on a second read for **every** record, the classification lookup included -/
+theorem C08_factory_idem_all (v : Vlr) :
+    factory (factory v) = factory v ∧ (factory v).userId = v.userId ∧
+    (factory v).recordId = v.recordId ∧ (factory v).description = v.description := by
+  cases hc : classify v.userId v.recordId with
+  | none =>
+    have : factory v = v := C08_raw v (Or.inl hc)
+    simp [this]
+  | some k =>
+    cases hn : norm k v.payload with
+    | none =>
+      have : factory v = v := C08_raw v (Or.inr ⟨k, hc, hn⟩)
+      simp [this]
+    | some q =>
+      have h1 : factory v = { v with payload := q } := by unfold factory; simp [hc, hn]
+      have h2 : factory { v with payload := q } = { v with payload := q } := by
+        unfold factory; simp [hc, C08_norm_idem_all k _ _ hn]
+      rw [h1, h2]; simp
+
+/-- non-vacuity: a lookup with a repeated class id and a name holding a NUL parses -/
+example : (normClassLookup ([3] ++ ascii "low_vegetation" ++ [0] ++ [3] ++ ascii "ground" ++ List.replicate 9 0)).isSome = true := by
+  decide +kernel
+
+end LasModel.Props.C08
